@@ -31,6 +31,14 @@ def observeCancel (x : S) : Option S :=
 def step (x : S) (w : List String) : Option (S × String × List String) :=
   match w with
   | ["run", _, _, _, _, _] => some ({}, "ok", [])
+  | ["tiny", _, _, _, _] =>
+    -- BB.Props.C20: the values are non-decreasing whatever stamps the ticker delivers (`forwarded_stamps_nondecreasing`), never
+    -- more than count
+    some ({}, "nonmonotonic=0 toomany=0", ["tiny_rate"])
+  | ["slowcancel", _, _, _] =>
+    -- after cancellation ctx.Done() is ready in the goroutine's select at `top` (also on the slot-full retry path): the goroutine
+    -- does not wait for a further tick (BB.Props.C20.closed_promptly_after_cancel; real time: half a period is ample)
+    some ({}, "closed-promptly", ["cancel_on_slot_full_path"])
   | ["start", count, pre, _rate, _pace] => do
     let count ← count.toNat?
     some ({ st := start count (pre == "pre=1"), started := true }, "ok", if pre == "pre=1" then ["pre_cancelled"] else [])
